@@ -161,7 +161,7 @@ class Inst:
         self.id = id; self.props = list(props); self.harness = harness; self.entry = entry
         self.tus = list(tus); self.defs = list(defs); self.stubs = list(stubs)
         self.unwind = unwind; self.unwindset = list(unwindset); self.backends = list(backends)
-        self.timeout = timeout; self.tier = tier; self.objbits = objbits; self.mem_gb = mem_gb
+        self.timeout = min(timeout, int(os.environ.get('VX_TIMEOUT_CAP', '0') or 0) or timeout); self.tier = tier; self.objbits = objbits; self.mem_gb = mem_gb
         self.bounds = bounds; self.inputs = inputs; self.c_sources = list(c_sources); self.noops = list(noops)
         self.nounwind_assert = nounwind_assert; self.extra_cbmc = list(extra_cbmc); self.ub = ub; self.desc = desc
 
